@@ -40,7 +40,8 @@ Unknown(text)    == [k |-> "Unknown", text |-> text]
 ----------------------------------------------------------------------------
 \* wrap_in_loop: the body.  `c` is the index of the counter reference handed in, `t` the start target.
 \* Deviations (as-built behaviours / seeded mutations used to show what the property catches):
-\*   "SubHardcodesCellZero"  as built: the SUB addresses <counter>[0] whatever index the reference has
+\*   "SubHardcodesCellZero"  as built before fix f30d5a1: the SUB addresses <counter>[0] whatever index the
+\*                           reference has
 \*   "JumpUnless" "InitNMinus1" "DecrementFirst" "NoLabel"   mutations, never on in shipped configurations
 CONSTANT Deviations
 
